@@ -254,6 +254,9 @@ def _task(args):
         stack.extend(pending)
         if leaf['violations']:
             break
+    if os.environ.get('SYMX_COV'):
+        from . import rt as _rt
+        _rt.cov_flush()
     return leaves, stack
 
 
